@@ -9,9 +9,11 @@ from vlib.core import FAIL, OK, Check
 from vlib.lab import conform
 from vlib.timeops import (
     CLOCKS,
+    combine,
     cv,
     effective,
     execute,
+    execute_all,
     first_fire,
     fwd,
     judge,
@@ -19,7 +21,9 @@ from vlib.timeops import (
     nelems,
     outcomes,
     prelude,
+    second_sub,
     sources,
+    sub_ticks,
     targ,
     tick_datetime,
     triggers,
@@ -41,7 +45,7 @@ RULE = (
     "one instant not judged; timestamp = (value, clock reading as datetime); time_interval = (value, time since previous "
     "element or since subscription). Non-trivial: delay: >=2 elements and some element still pending when a later notification "
     "arrives; delay_subscription: d>0 and >=1 element; delay_with_mapper: >=2 elements and >=1 duration firing strictly later "
-    "than its element; timestamp/time_interval: >=2 elements. Distinct = distinct case JSON."
+    "than its element; timestamp/time_interval: >=2 elements. Every check except delay_with_mapper_subdelay subscribes, in 1 case of 3, the same built observable a second time at a generated tick s1 in s0+{0,1,2,3,7} and applies the same oracle to that probe with its own subscribe tick (absolute due time D: expected shift D - s1). Distinct = distinct case JSON."
 )
 ASSUMPTIONS = [
     "absolute datetimes passed to delay/delay_subscription are not earlier than the subscription instant",
@@ -78,10 +82,17 @@ def _exp_delay(eff, d, ch):
 
 def _run_delay(case):
     lab = mk_lab(case["clock"])
-    s0, d = case["s0"], case["d"]
+    s0 = case["s0"]
     src = lab.source(case["src"])
-    p = execute(lab, src.pipe(ops.delay(_darg(lab, case["form"], d, s0))), s0)
-    eff = effective(case["src"], s0)
+    ticks = sub_ticks(case)
+    probes = execute_all(lab, src.pipe(ops.delay(_darg(lab, case["form"], case["d"], s0))), ticks)
+    return combine([_judge_delay(case, lab, p, s) for p, s in zip(probes, ticks)], ticks)
+
+
+def _judge_delay(case, lab, p, s):
+    # an absolute due time D = s0 + d means a shift of D - s for the subscription made at tick s
+    d = case["d"] if case["form"] != "abs" else case["s0"] + case["d"] - s
+    eff = effective(case["src"], s)
     ts = [m[0] for m in eff]
     n = sum(1 for m in eff if m[1] == "N")
     pending = any(eff[i][1] == "N" and eff[i][0] + d > eff[j][0] for i in range(len(eff)) for j in range(i + 1, len(eff)))
@@ -117,19 +128,27 @@ def _exp_delaysub(spec, s0, d, ch):
 
 def _run_delaysub(case):
     lab = mk_lab(case["clock"])
-    s0, d = case["s0"], case["d"]
+    s0 = case["s0"]
     src = lab.source(case["src"])
-    p = execute(lab, src.pipe(ops.delay_subscription(_darg(lab, case["form"], d, s0))), s0)
-    r = prelude(lab, p, "delay_subscription", case)
+    ticks = sub_ticks(case)
+    probes = execute_all(lab, src.pipe(ops.delay_subscription(_darg(lab, case["form"], case["d"], s0))), ticks)
+    r = prelude(lab, probes[0], "delay_subscription", case)
     if r is not None:
         return r
     cls = [f"form:{case['form']}", f"clock:{case['clock']}", f"src:{case['src']['kind']}"]
-    if d == 0:
+    if case["d"] == 0:
         cls.append("d=0")
-    if [s[0] for s in src.subs] != [s0 + d]:
-        return FAIL("subscribe-time|delay_subscription", f"source subscriptions {src.subs}, expected one at {s0 + d}; case={case}", classes=cls)
+    ds = [case["d"] if case["form"] != "abs" else s0 + case["d"] - s for s in ticks]
+    want = sorted(s + d for s, d in zip(ticks, ds))
+    if sorted(x[0] for x in src.subs) != want:
+        sig = "subscribe-time|delay_subscription" + (":2nd-subscription" if len(ticks) > 1 else "")
+        return FAIL(sig, f"source subscriptions {src.subs}, expected exactly at {want}; case={case}", classes=cls)
     n = nelems(case["src"])
-    return judge("delay_subscription", case, lab, p, outcomes(lambda ch: _exp_delaysub(case["src"], s0, d, ch)), cls, d > 0 and n >= 1)
+    res = [
+        judge("delay_subscription", case, lab, p, outcomes(lambda ch, s=s, d=d: _exp_delaysub(case["src"], s, d, ch)), cls, d > 0 and n >= 1)
+        for p, s, d in zip(probes, ticks, ds)
+    ]
+    return combine(res, ticks)
 
 
 # ------------------------------------------------------------------------------ delay_with_mapper
@@ -150,8 +169,9 @@ def _run_dwm(case):
         op = ops.delay_with_mapper(mapper)
     else:
         op = ops.delay_with_mapper(lab.source(sd), mapper)
-    p = execute(lab, src.pipe(op), s0)
-    r = _judge_dwm(case, lab, p, src)
+    ticks = sub_ticks(case) if sd is None else [s0]
+    probes = execute_all(lab, src.pipe(op), ticks)
+    r = combine([_judge_dwm(case, lab, p, src, s, ticks) for p, s in zip(probes, ticks)], ticks)
     if not r.ok and not r.sig.startswith("escaped"):
         # root-cause buckets: a subscription delay / a duration observable that fires inside its own subscribe() call
         def sync_now(spec):
@@ -164,8 +184,8 @@ def _run_dwm(case):
     return r
 
 
-def _judge_dwm(case, lab, p, src):
-    s0, durs, sd = case["s0"], case["durs"], case.get("subdelay")
+def _judge_dwm(case, lab, p, src, s0, ticks):
+    durs, sd = case["durs"], case.get("subdelay")
     r = prelude(lab, p, "delay_with_mapper", case)
     if r is not None:
         return r
@@ -192,10 +212,11 @@ def _judge_dwm(case, lab, p, src):
                 return FAIL("subdelay-error|delay_with_mapper", f"trace={tr} subs={src.subs} case={case}", classes=cls)
             return OK(False, cls)
         S = s0 + ff[0]
-    if [s[0] for s in src.subs] != [S]:
+    want_subs = [S] if sd is not None else sorted(ticks)
+    if sorted(s[0] for s in src.subs) != want_subs:
         return FAIL(
             "subscribe-time|delay_with_mapper",
-            f"source subscriptions {src.subs}, expected exactly one at {S}; trace={tr} case={case}",
+            f"source subscriptions {src.subs}, expected exactly at {want_subs}; trace={tr} case={case}",
             classes=cls,
         )
     eff = [[S + t, k, v] for t, k, v in conform(case["src"]["tl"])]
@@ -273,7 +294,12 @@ def _run_stamp(case):
         o = src.pipe(ops.timestamp(), ops.map(lambda r: ("ts", r.value, r.timestamp)))
     else:
         o = src.pipe(ops.time_interval(), ops.map(lambda r: ("ti", r.value, r.interval)))
-    p = execute(lab, o, s0)
+    ticks = sub_ticks(case)
+    probes = execute_all(lab, o, ticks)
+    return combine([_judge_stamp(case, lab, p, s, which) for p, s in zip(probes, ticks)], ticks)
+
+
+def _judge_stamp(case, lab, p, s0, which):
     eff = effective(case["src"], s0)
     exp = []
     last = s0
@@ -301,7 +327,9 @@ def _delay_cases(draw, abs_ok=True):
     d = draw(st.sampled_from([0, 0, 1, 2, 3, 5]))
     s0, spec = draw(sources(d=d))
     form = draw(st.sampled_from(FORMS_REL + (["abs"] if abs_ok else [])))
-    return {"clock": draw(st.sampled_from(CLOCKS)), "s0": s0, "src": spec, "d": d, "form": form}
+    # second subscription of the same observable; an absolute due time must not lie before it
+    s1 = second_sub(draw, s0, limit=d if form == "abs" else None)
+    return {"clock": draw(st.sampled_from(CLOCKS)), "s0": s0, "src": spec, "d": d, "form": form, "s1": s1}
 
 
 @st.composite
@@ -313,13 +341,14 @@ def _dwm_cases(draw, subdelay=False):
     sd = None
     if subdelay:
         sd = draw(triggers(kinds=kinds))
-    return {"clock": draw(st.sampled_from(CLOCKS)), "s0": s0, "src": spec, "durs": durs, "subdelay": sd}
+    s1 = None if subdelay else second_sub(draw, s0)
+    return {"clock": draw(st.sampled_from(CLOCKS)), "s0": s0, "src": spec, "durs": durs, "subdelay": sd, "s1": s1}
 
 
 @st.composite
 def _stamp_cases(draw):
     s0, spec = draw(sources(d=2))
-    return {"clock": draw(st.sampled_from(CLOCKS)), "s0": s0, "src": spec, "op": draw(st.sampled_from(["timestamp", "time_interval"]))}
+    return {"clock": draw(st.sampled_from(CLOCKS)), "s0": s0, "src": spec, "op": draw(st.sampled_from(["timestamp", "time_interval"])), "s1": second_sub(draw, s0)}
 
 
 def checks(tier):
